@@ -186,6 +186,9 @@ class _NoSleep:
         return getattr(self._real, k)
 
 
+REAL_TCP_PORTS = set()
+
+
 def install(world):
     """Patch the names the middleware uses to reach the outside world (no file under the repository is
     touched): getDongle for both transports, the hidapi reset hack, the app-open wait."""
@@ -195,7 +198,14 @@ def install(world):
     import ledger.hsm2dongle_tcp as ht
     import ledger.protocol as lp
     h.getDongle = world.get_dongle_hid
-    ht.getDongle = world.get_dongle_tcp
+
+    def tcp_dongle(host=None, port=None, debug=False, *a, **k):
+        # devices served by harness/tcpdev.py on a real loopback socket are reached through the unpatched transport
+        if port in REAL_TCP_PORTS:
+            import ledgerblue.commTCP as commTCP
+            return commTCP.getDongle(host, port, debug)
+        return world.get_dongle_tcp(host, port, debug)
+    ht.getDongle = tcp_dongle
     h.hid = types.SimpleNamespace(hidapi_exit=lambda: None)
     lp.time = _NoSleep(_time)
     try:
